@@ -33,7 +33,15 @@ def run(ctx):  # noqa: C901
         for p in ("vectors", "subsystems", "dimensions", "probs", "solver", "strategy"):
             a = b.get(p)
             ok = isinstance(a, ast.Name) and a.id == p
-            ctx.ob("R-THREAD", pd, f"{p}->{h}.{p}", ok, "forwarded" if ok else f"`{p}` not forwarded to {h}", c)
+            det_ = "forwarded" if ok else f"`{p}` not forwarded to {h}"
+            if ok and p in ("vectors", "subsystems", "dimensions") and pd.param(p) is not None:
+                rb = [x for x in walk_no_nested(pd.node) if isinstance(x, (ast.Assign, ast.AugAssign, ast.AnnAssign)) and getattr(x, "lineno", 0) < c.lineno and
+                      any(isinstance(y, ast.Name) and y.id == p and isinstance(y.ctx, ast.Store) for tg_ in (x.targets if isinstance(x, ast.Assign) else [x.target]) for y in ast.walk(tg_))]
+                if rb:
+                    ok = False
+                    det_ = (f"`{unparse(rb[0])[:80]}` re-binds `{p}` before it is handed to {h}: the programme is solved for transformed data "
+                            "(np.linalg.norm of a density matrix is its Frobenius norm, so mixed states are rescaled)")
+            ctx.ob("R-THREAD", pd, f"{p}->{h}.{p}", ok, det_, c)
         hit = flw.find_stmt_of(pd.node, c)
         conds = [(N(t), pol) for t, pol in flw.conds(hit[1])] if hit else []
         pe = ("cmp", "==", *sorted([("c", "primal"), ("n", "primal_dual")], key=repr))
